@@ -132,9 +132,117 @@ def gen_sim_cert():
     write_if_changed("SimCert.lean", "\n".join(lines))
 
 
+def gen_router_cert():
+    """C16: TTL handling of `ArpRouter::demux` translated statement by statement into a Lean
+    kernel, structural facts about the forwarding path (one send site, no loop, lookup by
+    destination, next hop = gateway or destination, ARP on the outgoing slot), the default TTL of
+    `Ipv4HeaderBuilder::new`, header constants and the ARP retry budget.  Fails closed."""
+    path = os.path.join(ELVIS, "applications", "arp_router.rs")
+    src = strip_comments(read(path))
+    m = re.search(r"impl\s+Protocol\s+for\s+ArpRouter\s*\{", src)
+    if not m:
+        raise ExtractError("arp_router.rs: impl Protocol for ArpRouter not found")
+    impl = fn_body(src, m.end() - 1)
+    dm = re.search(r"fn\s+demux\s*\(", impl)
+    if not dm:
+        raise ExtractError("arp_router.rs: fn demux not found")
+    body = fn_body(impl, impl.index("DemuxError>", dm.end()))
+    flat = re.sub(r"\s+", " ", body)
+    head = "let mut ipv4_header = *control.get::<Ipv4Header>().ok_or(DemuxError::Other)?;"
+    tail = "message.header(ipv4_header.serialize().or(Err(DemuxError::Other))?);"
+    if head not in flat or tail not in flat or flat.index(head) > flat.index(tail):
+        raise ExtractError("arp_router.rs: demux no longer reads the header / re-serialises it in the recognised form")
+    ttl_part = flat[flat.index(head) + len(head):flat.index(tail)].strip()
+    # statement grammar of the TTL handling
+    stmts = []
+    rest = ttl_part
+    while rest:
+        m1 = re.match(r"ipv4_header\.time_to_live -= (\d+); ?", rest)
+        m2 = re.match(r"if ipv4_header\.time_to_live (==|<=|<) (\d+) \{ return Ok\(\(\)\); \} ?", rest)
+        m3 = re.match(r"ipv4_header\.time_to_live = ipv4_header\.time_to_live\.(saturating_sub|wrapping_sub)\((\d+)\); ?", rest)
+        if m1:
+            stmts.append(("sub", int(m1.group(1))))
+            rest = rest[m1.end():]
+        elif m2:
+            stmts.append(("drop", m2.group(1), int(m2.group(2))))
+            rest = rest[m2.end():]
+        elif m3:
+            stmts.append((m3.group(1), int(m3.group(2))))
+            rest = rest[m3.end():]
+        else:
+            raise ExtractError("arp_router.rs: TTL handling of ArpRouter::demux is outside the translatable statement grammar: `%s`" % rest[:120])
+    lean_lines = []
+    for st in stmts:
+        if st[0] == "sub":
+            lean_lines.append(f'  if ttl < {st[1]} then .error "panic:sub:ArpRouter::demux:time_to_live" else')
+            lean_lines.append(f"  let ttl := ttl - {st[1]}")
+        elif st[0] == "saturating_sub":
+            lean_lines.append(f"  let ttl := ttl - {st[1]}")
+        elif st[0] == "wrapping_sub":
+            lean_lines.append(f"  let ttl := (ttl + 256 - {st[1]} % 256) % 256")
+        else:
+            op = {"==": "==", "<=": "≤", "<": "<"}[st[1]]
+            cond = f"ttl == {st[2]}" if st[1] == "==" else f"decide (ttl {op} {st[2]})"
+            lean_lines.append(f"  if {cond} then .ok none else")
+    lean_lines.append("  .ok (some ttl)")
+    after = flat[flat.index(tail):]
+    loops = len(re.findall(r"\b(for|while|loop)\b", flat))
+    sends = flat.count("send_pci(")
+    spawns = flat.count("tokio::spawn(")
+    by_dest = ".get_recipient(ipv4_header.destination)" in after
+    gw_or_dest = bool(re.search(r"let gateway = match pair\.0 \{ Some\(address\) => address, None => ipv4_header\.destination, \};", after))
+    arp_on_slot = bool(re.search(r"let slot = pair\.1;", after)) and "local: self.local_ips[slot as usize], remote: gateway," in after \
+        and "arp.resolve(address_pair, slot, machine.clone()).await" in after \
+        and bool(re.search(r"machine\.protocol::<Pci>\(\)\.unwrap\(\)\.open\(slot\)", after)) \
+        and "send_pci(message, Some(mac), TypeId::of::<Ipv4>())" in after
+    start = re.sub(r"\s+", " ", fn_body(impl, impl.index("StartError>", re.search(r"async\s+fn\s+start\s*\(", impl).end())))
+    wild = [pn for pn, name in ((6, "TCP"), (17, "UDP"))
+            if re.search(r"ipv4\.listen\( self\.id\(\), Ipv4Address::CURRENT_NETWORK, machine(\.clone\(\))?, ProtocolNumber::%s, \)" % name, start)]
+    arp_listens = "for ip in self.local_ips.iter() { arp.listen(*ip); }" in start
+    # Ipv4 header constants and default TTL
+    prs = strip_comments(read(os.path.join(CORE, "protocols", "ipv4", "ipv4_parsing.rs")))
+    mw = re.search(r"const BASE_WORDS: u8 = (\d+);", prs)
+    mo = re.search(r"const BASE_OCTETS: u16 = BASE_WORDS as u16 \* (\d+);", prs)
+    mf = re.search(r"const FRAGMENT_OFFSET_MASK: u16 = (0x[0-9a-fA-F_]+|\d+);", prs)
+    nb = re.search(r"pub fn new\( source: Ipv4Address, destination: Ipv4Address, protocol: u8, payload_length: u16, \) -> Self \{ Self \{(.*?)\} \}", re.sub(r"\s+", " ", prs))
+    mt = nb and re.search(r"time_to_live: (\d+),", nb.group(1))
+    ser = "payload_length: self.total_length - BASE_OCTETS," in re.sub(r"\s+", " ", prs)
+    if not (mw and mo and mf and mt):
+        raise ExtractError("ipv4_parsing.rs: BASE_WORDS / BASE_OCTETS / FRAGMENT_OFFSET_MASK / default time_to_live not found")
+    arp = strip_comments(read(os.path.join(CORE, "protocols", "arp.rs")))
+    mr = re.search(r"pub const RESEND_TRIES: u32 = (\d+);", arp)
+    md = re.search(r"pub const RESEND_DELAY: Duration = Duration::from_millis\((\d+)\);", arp)
+    if not (mr and md):
+        raise ExtractError("arp.rs: RESEND_TRIES / RESEND_DELAY not found")
+    b = lambda x: "true" if x else "false"
+    lines = ["-- GENERATED from /repo sources by tools/extract.py on every check; do not edit",
+             "namespace Elvis.Gen",
+             "/-- TTL handling of `ArpRouter::demux`, statement by statement (dev profile: checked `-=`):",
+             "    `.error` = panic, `.ok none` = `return Ok(())` (datagram dropped), `.ok (some t)` = forwarded with TTL t.",
+             "    Source statements: " + "; ".join(" ".join(str(x) for x in st) for st in stmts) + " -/",
+             "def routerTtlKernel (ttl : Nat) : Except String (Option Nat) :="] + lean_lines + ["",
+             f"def routerDemuxSendSites : Nat := {sends}",
+             f"def routerDemuxSpawns : Nat := {spawns}",
+             f"def routerDemuxLoops : Nat := {loops}",
+             f"def routerLooksUpDestination : Bool := {b(by_dest)}",
+             f"def routerNextHopGatewayOrDestination : Bool := {b(gw_or_dest)}",
+             f"def routerArpOnOutgoingSlotOneSend : Bool := {b(arp_on_slot)}",
+             f"def routerWildcardListens : List Nat := [{', '.join(str(x) for x in wild)}]",
+             f"def routerArpListensLocalIps : Bool := {b(arp_listens)}",
+             f"def ipv4DefaultTtl : Nat := {mt.group(1)}",
+             f"def ipv4BaseOctets : Nat := {int(mw.group(1)) * int(mo.group(1))}",
+             f"def ipv4FragmentOffsetMask : Nat := {int(mf.group(1).replace('_', ''), 0)}",
+             f"def ipv4SerializeSubtractsBaseOctets : Bool := {b(ser)}",
+             f"def arpResendTries : Nat := {mr.group(1)}",
+             f"def arpResendDelayMs : Nat := {md.group(1)}",
+             "end Elvis.Gen", ""]
+    write_if_changed("RouterCert.lean", "\n".join(lines))
+
+
 def main():
     check_message_immutability()
     gen_sim_cert()
+    gen_router_cert()
     consts = ["-- GENERATED from /repo sources by tools/extract.py on every check; do not edit", "namespace Elvis.Gen", "end Elvis.Gen", ""]
     write_if_changed("Consts.lean", "\n".join(consts))
 
